@@ -167,7 +167,34 @@ class WebProcessorSession(BaseProcessorSession):
                 url_record.url_info.scheme == 'http':
             return
 
-        request.fields['Referer'] = url_record.parent_url
+        request.fields['Referer'] = cls._strip_userinfo(url_record.parent_url)
+
+    @classmethod
+    def _strip_userinfo(cls, url: str) -> str:
+        '''Return the URL without the username and password.
+
+        The credentials of the referring page must not be sent along to
+        whatever host the link points to (RFC 7231 section 5.5.2).
+        '''
+        scheme, sep, rest = url.partition('://')
+
+        if not sep:
+            return url
+
+        end = len(rest)
+
+        for char in '/?#':
+            index = rest.find(char)
+
+            if 0 <= index < end:
+                end = index
+
+        authority = rest[:end]
+
+        if '@' not in authority:
+            return url
+
+        return scheme + sep + authority.rpartition('@')[2] + rest[end:]
 
     @asyncio.coroutine
     def process(self):
